@@ -1,14 +1,18 @@
 //! `vh-sync` — conformance engine for the sync subsystem (DESIGN §3.3, C16–C18, C20).
 mod model;
 mod peercache;
+mod proto;
 mod session;
 mod wire;
+mod wirefuzz;
 
 fn main() {
     let args = vrt::Args::parse();
     match args.sub.as_str() {
         "peercache" => peercache::run(&args),
         "session" => session::run(&args),
+        "proto" => proto::run(&args),
+        "wire" => wirefuzz::run(&args),
         "wire-selftest" => match wire::selftest() {
             Ok(()) => println!("wire mirror ok"),
             Err(e) => vrt::die(&e),
